@@ -31,7 +31,8 @@ class DuckDB(Dialect):
     ASCII_ONLY_NORMALIZATION = True
 
     DATE_PART_MAPPING = {
-        **Dialect.DATE_PART_MAPPING,
+        # The aliases of DAYOFWEEKISO are mapped to ISODOW directly, the table is looked up only once
+        **{k: "ISODOW" if v == "DAYOFWEEKISO" else v for k, v in Dialect.DATE_PART_MAPPING.items()},
         "DAYOFWEEKISO": "ISODOW",
     }
 
